@@ -158,7 +158,10 @@ type scenario struct {
 	Refs  []refSpec `json:"refs"`
 }
 
-var refKinds = []string{"id-string", "id-typename", "pkgexpose", "id-types", "sprintf-T-string", "sprintf-T-types", "id-generic-string"}
+// id-object: ID of a *types.TypeName loaded by the type checker (what generators pass: snippet.ID(named.Obj())) - it
+// knows its package's DECLARED name, which differs from every path-derived name here (seeded change C03-n: a path
+// first bound through a string reference was re-bound to the declared name by a later object reference)
+var refKinds = []string{"id-string", "id-typename", "pkgexpose", "id-types", "sprintf-T-string", "sprintf-T-types", "id-generic-string", "id-object", "id-object"}
 
 func genScenario(r *rand.Rand) scenario {
 	n := 2 + r.Intn(15)
@@ -227,7 +230,7 @@ func genScenario(r *rand.Rand) scenario {
 		g := &typgen.Gen{R: r, Paths: paths}
 		var e *typgen.Expr
 		switch kind {
-		case "id-string", "id-typename", "pkgexpose", "sprintf-T-string":
+		case "id-string", "id-typename", "pkgexpose", "sprintf-T-string", "id-object":
 			e = &typgen.Expr{Kind: "named", Path: p, Name: typgen.NamedPlain[r.Intn(len(typgen.NamedPlain))]}
 		case "id-generic-string":
 			e = &typgen.Expr{Kind: "named", Path: p, Name: "Pair", Args: []*typgen.Expr{
@@ -302,6 +305,12 @@ func check(sc scenario, res *core.Result) (string, string) {
 			sn = snippet.ID(gengotypes.Ref(ref.Expr.Path, s[len(ref.Expr.Path)+1:]))
 		case "pkgexpose":
 			sn = snippet.PkgExpose(ref.Expr.Path, ref.Expr.Name)
+		case "id-object":
+			o, err := resolve(ref.Expr.Path, ref.Expr.Name)
+			if err != nil {
+				return "harness", err.Error()
+			}
+			sn = snippet.ID(o)
 		case "id-types", "sprintf-T-types":
 			lp, _ := w.Import(target)
 			tt, err := ref.Expr.Types(resolve, lp)
